@@ -100,8 +100,10 @@ Definition erase (l : list item) : list rec :=
 
 (* per-frame extension: MCOUNT_FL_READ and the event area (oldest first = highest address first) *)
 Record fx := { x_read : bool; x_evs : list fev;
-               x_asz : option N }.            (* MCOUNT_FL_ARGUMENT and the size word at the start of the frame buffer *)
-Definition fxa (a : option N) : fx := {| x_read := false; x_evs := []; x_asz := a |}.
+               x_asz : option N;              (* MCOUNT_FL_ARGUMENT and the size word at the start of the frame buffer *)
+               x_nent : nat }.                (* how many of the events the ENTRY pass stored (event->idx = 0); the
+                                                 rest was stored by the exit pass (event->idx = 1) *)
+Definition fxa (a : option N) : fx := {| x_read := false; x_evs := []; x_asz := a; x_nent := 0 |}.
 Definition fx0 : fx := fxa None.
 
 Record xpart := {
@@ -194,9 +196,9 @@ Fixpoint str_go_g (C : xcfg) (asz : option N) (ks : list kind) (o : oval) (ts : 
   end.
 
 Definition save_trigger_read (C : xcfg) (f : frame) (o : oval) (diff : bool) (x : fx) : fx :=
-  {| x_read := true;
-     x_evs := str_go_g C (x_asz x) (kinds_of (read_of C (f_addr f))) o (ts_of f) diff (x_evs x);
-     x_asz := x_asz x |}.
+  let evs := str_go_g C (x_asz x) (kinds_of (read_of C (f_addr f))) o (ts_of f) diff (x_evs x) in
+  {| x_read := true; x_evs := evs; x_asz := x_asz x;
+     x_nent := if diff then x_nent x else length evs |}.
 
 (* ---------------------------------------------------------------- save_watchpoint *)
 Definition cpu_word (c : Z) : N := Z.to_N (c mod 4294967296).
@@ -236,7 +238,8 @@ Fixpoint pop_lt (ts : N) (p : list aev) : list fev * list aev :=
               then let '(fl, r') := pop_lt ts r in (a_ev a :: fl, r')
               else ([], p)
   end.
-(* ENTRY: events of the frame, oldest first, up to the first whose time is not the ENTRY time (break) *)
+(* ENTRY: events of the frame stored by the entry pass, oldest first, up to the first whose time is not the ENTRY
+   time (break) *)
 Fixpoint take_eq (ts : N) (evs : list fev) : list fev :=
   match evs with
   | [] => []
@@ -245,12 +248,12 @@ Fixpoint take_eq (ts : N) (evs : list fev) : list fev :=
 Definition x_entry (f : frame) (x : fx) (p : list aev) : list item * list aev :=
   let ts := f_start f in
   let '(fl, p') := pop_lt ts p in
-  (map IE fl ++ [IR (entry_rec f)] ++ map IE (take_eq ts (x_evs x)), p').
-(* EXIT: every event of the frame whose time is the EXIT time (continue), before the record *)
+  (map IE fl ++ [IR (entry_rec f)] ++ map IE (take_eq ts (firstn (x_nent x) (x_evs x))), p').
+(* EXIT: every event of the frame stored by the exit pass whose time is the EXIT time (continue), before the record *)
 Definition x_exit (f : frame) (x : fx) (p : list aev) : list item * list aev :=
   let ts := f_end f in
   let '(fl, p') := pop_lt ts p in
-  (map IE fl ++ map IE (filter (fun e => e_time e =? ts) (x_evs x)) ++ [IR (exit_rec f)], p').
+  (map IE fl ++ map IE (filter (fun e => e_time e =? ts) (skipn (x_nent x) (x_evs x))) ++ [IR (exit_rec f)], p').
 
 (* ancestors (nearest first) with their extensions: mirrors [flush_anc] *)
 Fixpoint xflush_anc (anc : list frame) (axs : list fx) (p : list aev) : list item * list aev :=
@@ -615,15 +618,18 @@ Definition ok_times (l : list oitem) : bool := ok_times_go [] l.
 (* (d) read event immediately after ENTRY / diff event immediately before EXIT for functions with a
    read trigger whose kinds all succeed: after ENTRY f exactly |kinds| READ events with the ENTRY time,
    before EXIT f exactly |kinds| DIFF events with the EXIT time, ids in table order *)
-Definition is_rd_id (i : N) : bool := existsb (fun k => (i =? id_read k) || (i =? id_diff k)) all_kinds.
-Fixpoint starts_with (ids : list N) (t : N) (l : list oitem) : bool :=
+(* [dif] = false: READ ids (after ENTRY), true: DIFF ids (before EXIT); in a call of zero duration the reads are
+   followed by the differences at the same time stamp *)
+Definition is_rd_id (dif : bool) (i : N) : bool :=
+  existsb (fun k => if dif then i =? id_diff k else i =? id_read k) all_kinds.
+Fixpoint starts_with (dif : bool) (ids : list N) (t : N) (l : list oitem) : bool :=
   match ids with
   | [] => match l with
-          | OE t' i _ :: _ => negb ((t' =? t) && is_rd_id i)        (* no further read/diff event *)
+          | OE t' i _ :: _ => negb ((t' =? t) && is_rd_id dif i)    (* no further read (resp. diff) event *)
           | _ => true
           end
   | i :: ri => match l with
-               | OE t' i' _ :: r => (t' =? t) && (i' =? i) && starts_with ri t r
+               | OE t' i' _ :: r => (t' =? t) && (i' =? i) && starts_with dif ri t r
                | _ => false
                end
   end.
@@ -632,8 +638,8 @@ Fixpoint ok_adj_go (C : xcfg) (prev_rev : list oitem) (l : list oitem) : bool :=
   | [] => true
   | OR (t, ty, mg, dp, ad) :: r =>
       let ks := ekinds C ad in
-      (if ty =? UFTRACE_ENTRY then starts_with (map id_read ks) t r
-       else starts_with (rev (map id_diff ks)) t prev_rev)
+      (if ty =? UFTRACE_ENTRY then starts_with false (map id_read ks) t r
+       else starts_with true (rev (map id_diff ks)) t prev_rev)
       && ok_adj_go C (OR (t, ty, mg, dp, ad) :: prev_rev) r
   | e :: r => ok_adj_go C (e :: prev_rev) r
   end.
@@ -766,6 +772,9 @@ Fixpoint wrun_legacy (C : xcfg) (l : list (N * oval)) (X : xpart) : list fev :=
   | (t, o) :: r => let X1 := x_watch_legacy C (dummy_frame t) 0 o X in
                    map a_ev (pend X1) ++ wrun_legacy C r (set_pend X1 [])
   end.
+(* 491a61f: both passes of record_ret_stack selected a frame's events by time stamp alone *)
+Definition legacy_entry_events (ts : N) (evs : list fev) : list fev := take_eq ts evs.
+Definition legacy_exit_events (ts : N) (evs : list fev) : list fev := filter (fun e => e_time e =? ts) evs.
 (* (cpu, before the fix of this round): the new cpu number was remembered even when the queue was full and no
    event could be stored - that change was never reported *)
 Definition x_watch_cpu_legacy (C : xcfg) (f : frame) (pos : N) (o : oval) (X : xpart) : xpart :=
@@ -775,3 +784,80 @@ Definition x_watch_cpu_legacy (C : xcfg) (f : frame) (pos : N) (o : oval) (X : x
      v_copy := v_copy X'; g_init := g_init X'; g_val := g_val X'; xout := xout X' |}.
 (* 35535f9: the invalidation was called with mtdp->idx (one above the exiting frame's index):
    [invalidate (n + 1)] at the exit of frame n *)
+
+(* ================================================================ READER SIDE: the depth filter of the analysis
+   commands (utils/fstack.c: fstack_entry / fstack_exit / fstack_check_filter, EVENT branch) for a stream with
+   events.  Options: -D N ([rgdepth]) and depth=N triggers given at analysis time ([rdepth_of]).
+       fstack_entry:  orig_depth = filter.depth;  depth= trigger: filter.depth = N;
+                      filter.depth <= 0: FSTACK_FL_NORECORD, not shown;  else filter.depth--, shown
+       fstack_exit:   filter.depth = orig_depth
+       EVENT:         shown iff the innermost open function is shown (no open function: iff filter.depth > 0)
+   [legacy = true] is the test before 9a6dfe6: shown iff filter.depth > 0. *)
+Inductive rtree := RC (fn : N) (kids : list rtree) | RV (e : N).
+Inductive rrec := RE (fn : N) | RX (fn : N) | REV (e : N).
+
+Section rtree_ind.
+  Variable P : rtree -> Prop.
+  Hypothesis Hc : forall fn kids, Forall P kids -> P (RC fn kids).
+  Hypothesis Hv : forall e, P (RV e).
+  Fixpoint rtree_ind' (t : rtree) : P t :=
+    match t with
+    | RC fn kids => Hc fn kids ((fix go (l : list rtree) : Forall P l :=
+                                   match l with
+                                   | [] => Forall_nil _
+                                   | x :: r => Forall_cons _ (rtree_ind' x) (go r)
+                                   end) kids)
+    | RV e => Hv e
+    end.
+End rtree_ind.
+
+Fixpoint rflat (t : rtree) : list rrec :=
+  match t with
+  | RC fn kids => RE fn :: flat_map rflat kids ++ [RX fn]
+  | RV e => [REV e]
+  end.
+
+Record rcfg := { rgdepth : Z; rdepth_of : N -> option Z }.
+Definition rst := (Z * list (bool * Z))%type.          (* filter.depth, open functions (NORECORD, orig_depth) top first *)
+
+Definition rstep (legacy : bool) (c : rcfg) (s : rst) (r : rrec) : rst * list rrec :=
+  let '(fd, stk) := s in
+  match r with
+  | RE fn =>
+      let fd1 := match rdepth_of c fn with Some d => d | None => fd end in
+      if (fd1 <=? 0)%Z then ((fd1, (true, fd) :: stk), []) else (((fd1 - 1)%Z, (false, fd) :: stk), [RE fn])
+  | RX fn =>
+      match stk with
+      | (nr, orig) :: rest => ((orig, rest), if nr then [] else [RX fn])
+      | [] => (s, [])
+      end
+  | REV e =>
+      let shown := if legacy then (0 <? fd)%Z
+                   else match stk with (nr, _) :: _ => negb nr | [] => (0 <? fd)%Z end in
+      (s, if shown then [REV e] else [])
+  end.
+Fixpoint rrun (legacy : bool) (c : rcfg) (rs : list rrec) (s : rst) : rst * list rrec :=
+  match rs with
+  | [] => (s, [])
+  | r :: rest => let '(s1, o1) := rstep legacy c s r in
+                 let '(s2, o2) := rrun legacy c rest s1 in (s2, o1 ++ o2)
+  end.
+(* per record: is it shown?  (what the tie compares with `uftrace dump -D N` / replay) *)
+Fixpoint rflags (legacy : bool) (c : rcfg) (rs : list rrec) (s : rst) : list bool :=
+  match rs with
+  | [] => []
+  | r :: rest => let '(s1, o1) := rstep legacy c s r in
+                 negb (is_nil o1) :: rflags legacy c rest s1
+  end.
+
+(* specification: a function is shown iff the depth budget lets it; an event is shown iff the function it belongs
+   to (the innermost function around it) is shown - under that function; functions and events beyond the limit
+   vanish together (a depth= trigger deeper down opens a new budget) *)
+Fixpoint rvis (c : rcfg) (shown_parent : bool) (b : Z) (t : rtree) : list rrec :=
+  match t with
+  | RV e => if shown_parent then [REV e] else []
+  | RC fn kids =>
+      let b1 := match rdepth_of c fn with Some d => d | None => b end in
+      if (b1 <=? 0)%Z then flat_map (rvis c false b1) kids
+      else RE fn :: flat_map (rvis c true (b1 - 1)%Z) kids ++ [RX fn]
+  end.
